@@ -2073,3 +2073,32 @@ func (c *Ctx) ruleSchemaExtentByDependency(rule string) {
 		r.Ok(rule, "package scanner", "no schema extent is taken from the dependency's JSchema.Len", "")
 	}
 }
+
+// ruleRegexPreludeComment: between the line of a directive and its body, comment lines are insignificant. Where the
+// scanner waits for the delimiter of a regular expression, a '#' has to start a comment like everywhere else between
+// lexemes - in all the states that wait (TYPE, Body, response, request), not in some (F38).
+func (c *Ctx) ruleRegexPreludeComment(rule string) {
+	r := c.R
+	r.Rule(rule, "in every explored configuration of the scanner automaton in which '/' begins the Text lexeme of a regular expression (and a letter does not begin a text), the byte '#' is not an error: a comment line between a directive of the regex notation and its body is a comment, whichever directive it is", 1)
+	a := c.Analysis(stackK, false)
+	if a == nil {
+		r.Undecided(rule, "E1", "no exploration", "")
+		return
+	}
+	fails, n := a.RegexPreludeCommentFailures()
+	if n < 2 {
+		r.Undecided(rule, "sites", fmt.Sprintf("only %d configurations wait for the delimiter of a regular expression", n), "")
+		return
+	}
+	seen := map[string]bool{}
+	for _, f := range fails {
+		if seen[f.State] {
+			continue
+		}
+		seen[f.State] = true
+		r.Bad(rule, "state "+f.State, fmt.Sprintf("the scanner waits for the '/' of a regular expression here (stack %s) and refuses '#': a comment line before the body of this directive is an error, while it is a comment before the regular expression of the other directives (reached by %s)", f.Stack, f.Trace), "")
+	}
+	if len(fails) == 0 {
+		r.Ok(rule, "all configurations", fmt.Sprintf("%d configurations wait for the delimiter of a regular expression: '#' is accepted in each", n), "")
+	}
+}
